@@ -12,6 +12,7 @@ import (
 	"fmt"
 	"reflect"
 	"strings"
+	"unsafe"
 
 	"github.com/SAP/go-dblib/tds"
 	"verif/hlib"
@@ -388,10 +389,18 @@ func observe(c Case) (sig, det string) {
 	}
 	// tx: layout of the packets
 	fs := hlib.FindFields(in.q, pktSliceType)
-	if len(fs) != 1 {
-		h.Fatal("expected exactly one []*tds.Packet field in PacketQueue, found %d", len(fs))
+	if len(fs) == 0 {
+		h.Fatal("no []*tds.Packet field in PacketQueue")
 	}
 	pk := fs[0].Interface().([]*tds.Packet)
+	if len(fs) > 1 {
+		// a tree that keeps further packet lists (a free list, say): the queue is the field of that name
+		qv := reflect.ValueOf(in.q).Elem()
+		if sf, ok := qv.Type().FieldByName("queue"); ok && sf.Type == pktSliceType {
+			f := qv.FieldByName("queue")
+			pk = reflect.NewAt(f.Type(), unsafe.Pointer(f.UnsafeAddr())).Elem().Interface().([]*tds.Packet)
+		}
+	}
 	// trailing packets beyond the model are acceptable only if they are untouched and the model's last is full (lazy/eager opening both fine)
 	if len(pk) < len(m.pk) {
 		return "C15|tx|layout|packets-missing", fmt.Sprintf("after %v: queue holds %d packets, model %d", c.Ops, len(pk), len(m.pk))
